@@ -81,7 +81,7 @@ def dataset_rows(ds):
     with warnings.catch_warnings():
         warnings.simplefilter("ignore")
         for s, p, o, c in ds.quads((None, None, None, None)):
-            cid = getattr(c, "identifier", c)
+            cid = c.identifier if isinstance(c, Graph) else c
             ck = None if cid is None else tkey(cid)
             if ck == _DEFAULT_KEY:
                 ck = None
